@@ -78,6 +78,16 @@ Proof. exact cost_work_admissible_bound. Qed.
 Theorem C04_work_motion_cost_is_directional :
   forall w, work_motion RA unit (fun _ _ => 1%R) w (tt, 0%R) (tt, 1%R) <> work_motion RA unit (fun _ _ => 1%R) w (tt, 1%R) (tt, 0%R).
 Proof. exact work_motion_not_symmetric. Qed.
+(* the weighted multi-objective (MultiOptimizationObjective: motion cost = sum of weight x component motion cost): the cost of a
+   path is the weighted sum of the costs its components give it, for every list of components; the instance the cost driver runs *)
+Theorem C04_multi_cost_is_weighted_sum :
+  forall (S : Type) (comps : list (R * (pt RA S -> pt RA S -> R))) (p : list (pt RA S)),
+    cost_multi RA S comps p = fold_right (fun k acc => (fst k * path_cost RA S (f0 RA) (fadd RA) (snd k) p + acc)%R) 0%R comps.
+Proof. exact cost_multi_is_weighted_sum. Qed.
+Theorem C04_multi_length_plus_integral :
+  forall (S : Type) (d : S -> S -> R) w1 w2 (p : list (pt RA S)),
+    cost_multi RA S ((w1, length_motion RA S d) :: (w2, integral_motion RA S d) :: nil) p = (w1 * cost_length RA S d p + w2 * cost_integral RA S d p)%R.
+Proof. exact cost_length_plus_integral. Qed.
 (* minimax objectives: the path cost is the worst state cost evaluated along any motion, both end states of every
    motion included (or the identity cost): the maximum for MinimaxObjective, the minimum for max-min clearance *)
 Theorem C04_minimax_cost_is_max :
@@ -104,6 +114,8 @@ Print Assumptions C04_integral_cost_lower_bound.
 Print Assumptions C04_work_cost_lower_bounds.
 Print Assumptions C04_work_cost_admissible_bound.
 Print Assumptions C04_work_motion_cost_is_directional.
+Print Assumptions C04_multi_cost_is_weighted_sum.
+Print Assumptions C04_multi_length_plus_integral.
 Print Assumptions C04_minimax_cost_is_max.
 Print Assumptions C04_clearance_cost_is_min.
 
